@@ -10,6 +10,9 @@ T = [
  ("C03-B", "C01", "C01.R5", "Wrap hands the unread bytes to the new connection"),
  ("C02-A", "C02", "C02.R7", "stale not-matched verdict survives a non-terminal route"),
  ("C02-B", "C02", "C02.R6", "subroute caches the compiled handler with the first connection's next"),
+ ("C06-A", "C06", "C06.R6", "freeze hoisted around the whole set"),
+ ("C06-B", "C06", "C06.R7", "http matcher memoises the request before the h2 preface/frames are read"),
+ ("C07-B", "C06", "C06.R4", "tls matcher answers 'no' when fewer bytes than the record length are buffered"),
  ("C05-A", "C05", "C05.R2", "deadline armed once only; not re-armed after a matched non-terminal route"),
  ("C05-B", "C05", "C05.R5", "buffer limit measured from the cursor"),
  ("fixrev-396f23a", "C05", "C05.R2", "fallback of an empty route list runs with the deadline armed"),
